@@ -1,5 +1,6 @@
-"""Scratch property module to run the reader contracts alone (development only)."""
-from .c10_reader import *  # noqa
-from . import c10_reader
-for c in c10_reader.REG.contracts.values():
-    pass
+"""
+Runner module of the namespace-reader contracts (id C10R, a component check used by C10 / C13 / C17 / C19 through
+specs/reader_link.py):  ./check C10R --tier quick
+"""
+from .c10_reader import *  # noqa: F401,F403
+from .c10_reader import LEVEL, NOT_COVERED, EXPLANATION, ASSUMPTIONS  # noqa: F401
